@@ -116,6 +116,51 @@ func switchClauses(c *Ctx, pkgPath, recv, fn string) ([]caseClause, *ast.FuncDec
 		}
 		return true
 	})
+	if len(out) == 0 {
+		// the table form: `return table[kind]` on a package-level `var table = map[TkKind]int{ K: v, … }`
+		ast.Inspect(fd.Body, func(n ast.Node) bool {
+			ix, ok := n.(*ast.IndexExpr)
+			if !ok {
+				return true
+			}
+			id, ok := ix.X.(*ast.Ident)
+			if !ok {
+				return true
+			}
+			obj, ok := p.TypesInfo.Uses[id].(*types.Var)
+			if !ok || obj.Parent() != p.Types.Scope() {
+				return true
+			}
+			for _, f := range p.Syntax {
+				ast.Inspect(f, func(m ast.Node) bool {
+					vs, ok := m.(*ast.ValueSpec)
+					if !ok || len(vs.Names) != 1 || p.TypesInfo.Defs[vs.Names[0]] != types.Object(obj) || len(vs.Values) != 1 {
+						return true
+					}
+					lit, ok := vs.Values[0].(*ast.CompositeLit)
+					if !ok {
+						return true
+					}
+					for _, el := range lit.Elts {
+						kv, ok := el.(*ast.KeyValueExpr)
+						if !ok {
+							continue
+						}
+						ktv, ok1 := p.TypesInfo.Types[kv.Key]
+						vtv, ok2 := p.TypesInfo.Types[kv.Value]
+						if !ok1 || !ok2 || ktv.Value == nil || vtv.Value == nil || namedName(ktv.Type) != "TkKind" || vtv.Value.Kind() != constant.Int {
+							continue
+						}
+						k, _ := constant.Int64Val(ktv.Value)
+						v, _ := constant.Int64Val(vtv.Value)
+						out = append(out, caseClause{kinds: []int64{k}, ret: &v})
+					}
+					return true
+				})
+			}
+			return true
+		})
+	}
 	return out, fd, nil
 }
 
@@ -309,7 +354,42 @@ var ruleTab = &Rule{
 			// collect, per if-statement, the set of TkKind constants compared with == in its condition
 			var condSets [][]string
 			var unaryLimit *int64
-			ast.Inspect(fd2.Body, func(n ast.Node) bool {
+			// parseSubExp and the unexported functions of the package it is split into (parseUnopOrExp0, finishBinopExp, …)
+			bodies := []ast.Node{fd2.Body}
+			{
+				declOf := map[*types.Func]*ast.FuncDecl{}
+				for _, f := range pp.Syntax {
+					for _, d := range f.Decls {
+						if fdd, ok := d.(*ast.FuncDecl); ok && fdd.Body != nil {
+							if o, ok := pp.TypesInfo.Defs[fdd.Name].(*types.Func); ok {
+								declOf[o] = fdd
+							}
+						}
+					}
+				}
+				seenFn := map[*ast.FuncDecl]bool{fd2: true}
+				frontier := []*ast.FuncDecl{fd2}
+				for depth := 0; depth < 2; depth++ {
+					var next []*ast.FuncDecl
+					for _, cur := range frontier {
+						ast.Inspect(cur.Body, func(n ast.Node) bool {
+							if call, ok := n.(*ast.CallExpr); ok {
+								if fn := calleeOf(pp.TypesInfo, call); fn != nil && !fn.Exported() && fn.Pkg() == pp.Types {
+									if d := declOf[fn]; d != nil && !seenFn[d] && (strings.HasPrefix(fn.Name(), "parse") || strings.HasPrefix(fn.Name(), "finish")) && fn.Name() != "parseExp" {
+										seenFn[d] = true
+										bodies = append(bodies, d.Body)
+										next = append(next, d)
+									}
+								}
+							}
+							return true
+						})
+					}
+					frontier = next
+				}
+			}
+			for _, body := range bodies {
+			ast.Inspect(body, func(n ast.Node) bool {
 				switch x := n.(type) {
 				case *ast.IfStmt:
 					set := map[string]bool{}
@@ -337,6 +417,7 @@ var ruleTab = &Rule{
 				}
 				return true
 			})
+			}
 			has := func(want []string) bool {
 				w := append([]string{}, want...)
 				sort.Strings(w)
